@@ -75,12 +75,12 @@ GEN = {
     "quick": [("unit", 160), ("ops", 40), ("expr", 24), ("ctrl", 24), ("loopidx", 10), ("struct", 10), ("hier", 10),
               ("seq", 12), ("misc", 12),
               ("nd", nd_idx([1, 2]) + nd_idx([3], _ND_LIGHT + ["comphet", "compifc"])),
-              ("lv", 8)],
+              ("lv", 8), ("stmt", 28)],
     # (the whole grid and a second round of its 2-D part; the expression families
     # were trimmed by about a fifth to make room: unit 480 -> 400, ops 560 -> 400, expr 400 -> 320, ctrl 300 -> 240)
     "thorough": [("unit", 400), ("ops", 400), ("expr", 320), ("ctrl", 240), ("loopidx", 100), ("struct", 100),
                  ("hier", 100), ("seq", 120), ("misc", 120),
-                 ("nd", nd_idx([1, 2, 3]) + [48 + i for i in nd_idx([2])]), ("lv", 32)],
+                 ("nd", nd_idx([1, 2, 3]) + [48 + i for i in nd_idx([2])]), ("lv", 32), ("stmt", 84)],
 }
 QUICK_STDLIB = ["RoundRobinArbiter_4", "RoundRobinArbiterEn_3", "Mux_8_4", "Mux_33_2", "Demux_8_4", "Adder_33", "Subtractor_32",
                 "Incrementer_8", "ZeroComparator_32", "LTComparator_33", "LEComparator_8", "EqComparator_1",
@@ -104,13 +104,13 @@ GEN_C12 = {
               ("nd", nd_idx([2], ["port", "sport", "wire", "pfield", "pfwire", "pftmp", "ifc", "ifcnest", "ifcport", "comp",
                                   "ffwire", "constarr"])
                + nd_idx([3], ["port"]) + nd_idx([1], ["ifcnest", "ifcport"])),
-              ("lv", [0, 2, 4, 5, 6, 7])],
+              ("lv", [0, 2, 4, 5, 6, 7]), ("stmt", 14)],
     # (the grid (of the four sub-component constructs two in 3-D) and a second round of its 2-D part; unit 320 -> 240, ops 300 -> 220,
     # expr 240 -> 200, ctrl 200 -> 170, struct 180 -> 160, hier 120 -> 110 make room for it)
     "thorough": [("unit", 240), ("ops", 220), ("expr", 200), ("ctrl", 170), ("loopidx", 100), ("struct", 160),
                  ("hier", 110), ("seq", 100), ("misc", 120),
                  ("nd", nd_idx([1, 2]) + nd_idx([3], _ND_LIGHT + ["comphet", "compifc"]) + [48 + i for i in nd_idx([2], _ND_LIGHT)]),
-                 ("lv", 16)],
+                 ("lv", 16), ("stmt", 56)],
 }
 
 
